@@ -538,6 +538,14 @@ def r3_walk_integrity(ctx):
     same_target = ttargets.get("Literals") == ttargets.get("VariableSingle") and ttargets.get("Literals") != tt
     ctx.check(R, "trailing-wildcard-binds-empty-list", okt and not others_bind and same_target,
               d + "; other edge kinds bind nothing after the loop: %s" % (not others_bind and same_target), (lr, tsbb))
+    # --- and that step is taken on every way out of the walk: no answer (Ok or Err) is produced between the exhaustion of the
+    #     segments and the test of the last node's edges (added after adversary change C01-E: an early `if node.methods.is_empty()
+    #     { return Err(404) }` before the step made `/assets` miss `GET /assets/{path:.*}`)
+    edge_tests = [sbb for sbb, info, tg in enum_switches(lr, r"^std::option::Option$")
+                  if lr.edge_dominates(osw, o_none, sbb) and access_path(lr, info["place"], VP).path == ["edges"] and access_path(lr, info["place"], VP).root_local() == node]
+    oks = bool(edge_tests) and lr.must_pass(edge_tests + [tsbb], start=o_none)
+    ctx.check(R, "trailing-step-precedes-every-answer", oks,
+              "every path from the exhausted walk to a return first tests the last node's edges for a trailing wildcard: %s (%d test site(s))" % (oks, len(edge_tests)), (lr, tsbb))
     # --- the method table is read from the node the walk ended on (after the trailing step)
     mg = [(bb, t) for bb, t in gets if access_path(lr, t["args"][0], VP).path == ["methods"]]
     okm = len(mg) == 1 and access_path(lr, mg[0][1]["args"][0], VP).root_local() == node and lr.edge_dominates(osw, o_none, mg[0][0]) and \
